@@ -1,0 +1,8 @@
+//go:build !verif
+// +build !verif
+
+package core
+
+// indexEntriesPerFile is the number of entries a file index packs in one index file (see verif_hooks.go for the
+// verification build, which can lower it).
+func indexEntriesPerFile(def int) int { return def }
